@@ -66,15 +66,15 @@ Proof.
   rewrite (cge_all _ _ (ss_skip S k H Hk)). rewrite skipn_length. lia.
 Qed.
 
-(* the commit candidate: at least qn of the values (match_index of the peers, own log length) reach it *)
-Lemma quorum_reached (vals : list N) (qn : N) :
-  1 <= qn -> qn <= llen vals ->
-  let ms := sort_asc vals in
-  (N.to_nat qn <= cge (nth (N.to_nat (llen ms - qn)) ms 0%N) vals)%nat.
+(* the commit candidate: at least qn of the values (match_index of the peers, own log length) reach the
+   element at any position k <= |vals| - qn of the ascending list *)
+Lemma quorum_reached (vals : list N) (qn k : N) :
+  1 <= qn -> qn <= llen vals -> k <= llen vals - qn ->
+  (N.to_nat qn <= cge (nth (N.to_nat k) (sort_asc vals) 0%N) vals)%nat.
 Proof.
-  intros H1 H2 ms. unfold llen in *. rewrite <- (cge_sort _ vals). fold ms.
-  assert (Hl : length ms = length vals) by apply len_sort. rewrite Hl.
-  pose proof (cge_nth ms (N.to_nat (N.of_nat (length vals) - qn)) (sort_ss vals)) as G.
+  intros H1 H2 H3. unfold llen in *. rewrite <- (cge_sort _ vals).
+  assert (Hl : length (sort_asc vals) = length vals) by apply len_sort.
+  pose proof (cge_nth (sort_asc vals) (N.to_nat k) (sort_ss vals)) as G.
   rewrite Hl in G. lia.
 Qed.
 
